@@ -282,7 +282,9 @@ theorem kind_direct {t : Table} (hwf : WF t) : ∀ (d c : Nat) (tvs : List Nat),
           simp [ownOrigBases, this]
       · simp at h
     · split at h
-      · split at h <;> simp at h
+      · split at h
+        · split at h <;> simp at h
+        · simp at h
       · simp at h
     · split at h
       · rename_i b hb
@@ -355,7 +357,9 @@ theorem kind_nonGeneric {t : Table} : ∀ (d c : Nat), kindOf t d c = .nonGeneri
     split at h
     · split at h <;> simp at h
     · split at h
-      · split at h <;> simp at h
+      · split at h
+        · split at h <;> simp at h
+        · simp at h
       · simp at h
     · rename_i hg hp
       have hpl := all_plain hg hp
@@ -372,26 +376,190 @@ theorem kind_nonGeneric {t : Table} : ∀ (d c : Nat), kindOf t d c = .nonGeneri
         · simp at h
     · simp at h
 
-theorem loop_single {t : Table} {d b : Nat} {args g : List TArg} {bs' : List BaseRef}
-    (hl : lookupOrigBases t d b = some bs') (hgb : genericBases bs' = [g]) :
-    ∀ (bs : List BaseRef), bs.filterMap genericOf = [] → bs.filterMap paramOf = [(b, args)] →
-      loopBases t d bs = .found g args := by
+/-! ### `issubclass(origin, GenericMixin)`: the model's reachability against the specification's reading of the declarations -/
+
+theorem parents_zero {t : Table} (hwf : WF t) : parents t 0 = [] := by
+  cases h : parents t 0 with
+  | nil => rfl
+  | cons p r => have := (hwf 0).2 p (by simp [h]); omega
+
+theorem derives_zero {t : Table} (hwf : WF t) : ∀ d, derives t mixinId d 0 = false := by
+  intro d
+  cases d <;> simp [derives, mixinId, parents_zero hwf]
+
+/-- every class among `__bases__` comes from a written base (or is `typing.Generic`) -/
+theorem mem_parentsOfBases {p : Nat} : ∀ (bs : List BaseRef), p ∈ parentsOfBases bs →
+    p = genericId ∨ (∃ a, BaseRef.param p a ∈ bs) ∨ BaseRef.plain p ∈ bs := by
+  intro bs
+  induction bs with
+  | nil => intro h; simp [parentsOfBases] at h
+  | cons b r ih =>
+    intro h
+    cases b with
+    | generic tvs =>
+      simp only [parentsOfBases] at h
+      split at h
+      · rcases ih h with h1 | ⟨a, h1⟩ | h1
+        · exact .inl h1
+        · exact .inr (.inl ⟨a, List.mem_cons_of_mem _ h1⟩)
+        · exact .inr (.inr (List.mem_cons_of_mem _ h1))
+      · rcases List.mem_cons.mp h with h1 | h1
+        · exact .inl h1
+        · rcases ih h1 with h2 | ⟨a, h2⟩ | h2
+          · exact .inl h2
+          · exact .inr (.inl ⟨a, List.mem_cons_of_mem _ h2⟩)
+          · exact .inr (.inr (List.mem_cons_of_mem _ h2))
+    | param c a =>
+      simp only [parentsOfBases] at h
+      rcases List.mem_cons.mp h with h1 | h1
+      · subst h1; exact .inr (.inl ⟨a, List.mem_cons_self ..⟩)
+      · rcases ih h1 with h2 | ⟨a', h2⟩ | h2
+        · exact .inl h2
+        · exact .inr (.inl ⟨a', List.mem_cons_of_mem _ h2⟩)
+        · exact .inr (.inr (List.mem_cons_of_mem _ h2))
+    | plain c =>
+      simp only [parentsOfBases] at h
+      rcases List.mem_cons.mp h with h1 | h1
+      · subst h1; exact .inr (.inr (List.mem_cons_self ..))
+      · rcases ih h1 with h2 | ⟨a', h2⟩ | h2
+        · exact .inl h2
+        · exact .inr (.inl ⟨a', List.mem_cons_of_mem _ h2⟩)
+        · exact .inr (.inr (List.mem_cons_of_mem _ h2))
+
+theorem param_mem_parentsOfBases {p : Nat} {a : List TArg} : ∀ (bs : List BaseRef), BaseRef.param p a ∈ bs → p ∈ parentsOfBases bs := by
+  intro bs
+  induction bs with
+  | nil => intro h; simp at h
+  | cons b r ih =>
+    intro h
+    rcases List.mem_cons.mp h with h1 | h1
+    · subst h1; simp [parentsOfBases]
+    · have := ih h1
+      cases b with
+      | generic tvs => simp only [parentsOfBases]; split <;> simp [this]
+      | param c a' => simp [parentsOfBases, this]
+      | plain c => simp [parentsOfBases, this]
+
+theorem plain_mem_parentsOfBases {p : Nat} : ∀ (bs : List BaseRef), BaseRef.plain p ∈ bs → p ∈ parentsOfBases bs := by
+  intro bs
+  induction bs with
+  | nil => intro h; simp at h
+  | cons b r ih =>
+    intro h
+    rcases List.mem_cons.mp h with h1 | h1
+    · subst h1; simp [parentsOfBases]
+    · have := ih h1
+      cases b with
+      | generic tvs => simp only [parentsOfBases]; split <;> simp [this]
+      | param c a' => simp [parentsOfBases, this]
+      | plain c => simp [parentsOfBases, this]
+
+/-- a class the declarations show to have nothing to do with GenericMixin is no subclass of it, whatever the depth searched -/
+theorem foreign_not_derives {t : Table} (hwf : WF t) : ∀ (d c : Nat), foreign t d c = true → ∀ d', derives t mixinId d' c = false := by
+  intro d
+  induction d with
+  | zero => intro c h; simp [foreign] at h
+  | succ d ih =>
+    intro c h d'
+    simp only [foreign, Bool.and_eq_true, bne_iff_ne, ne_eq, List.all_eq_true] at h
+    obtain ⟨hne, hall⟩ := h
+    cases d' with
+    | zero => simpa [derives] using hne
+    | succ d'' =>
+      simp only [derives, Bool.or_eq_false_iff, beq_eq_false_iff_ne, ne_eq, List.any_eq_false]
+      refine ⟨hne, ?_⟩
+      intro p hp
+      rcases mem_parentsOfBases _ hp with h1 | ⟨a, h1⟩ | h1
+      · subst h1; simp [genericId, derives_zero hwf]
+      · have := hall _ h1; simp only at this; simp [ih p this d'']
+      · have := hall _ h1; simp only at this; simp [ih p this d'']
+
+/-- a class the declarations show to be a GenericMixin class is a subclass of it at every depth searched from there on -/
+theorem usesMixin_derives {t : Table} : ∀ (d c : Nat), usesMixin t d c = true → ∀ d', d ≤ d' → derives t mixinId d' c = true := by
+  intro d
+  induction d with
+  | zero => intro c h; simp [usesMixin] at h
+  | succ d ih =>
+    intro c h d' hd'
+    cases d' with
+    | zero => omega
+    | succ d'' =>
+      simp only [usesMixin, Bool.or_eq_true, beq_iff_eq, List.any_eq_true] at h
+      simp only [derives, Bool.or_eq_true, beq_iff_eq, List.any_eq_true]
+      rcases h with h | ⟨b, hb, hu⟩
+      · exact .inl h
+      · right
+        cases b with
+        | generic tvs => simp at hu
+        | param p a => exact ⟨p, param_mem_parentsOfBases _ hb, ih p hu d'' (by omega)⟩
+        | plain p => exact ⟨p, plain_mem_parentsOfBases _ hb, ih p hu d'' (by omega)⟩
+
+theorem passedOver_foreign {t : Table} (hwf : WF t) {d p : Nat} (h : foreign t d p = true) (d' : Nat) :
+    originPassedOver t d' p = true := by
+  have := foreign_not_derives hwf d p h d'
+  simp [originPassedOver, loopOriginMustDeriveFrom, libClassId, mixinId] at this ⊢
+  exact this
+
+theorem not_passedOver_mixin {t : Table} {d p : Nat} (h : usesMixin t d p = true) (d' : Nat) (hd : d ≤ d') :
+    originPassedOver t d' p = false := by
+  have := usesMixin_derives d p h d' hd
+  simp [originPassedOver, loopOriginMustDeriveFrom, libClassId, mixinId] at this ⊢
+  exact this
+
+/-- **the loop selects the GenericMixin base, wherever it stands**: among bases without `Generic[…]`, with exactly one subscripted
+    base `B[args]` that is a GenericMixin class (whose declarations show `Generic[g]`) and every other subscripted base foreign to
+    GenericMixin, the loop answers `(g, args)` — the foreign bases before it are passed over, the ones after it are never reached -/
+theorem loop_select {t : Table} (hwf : WF t) {d0 b : Nat} {args g : List TArg} {bs' : List BaseRef} (d' : Nat) (hd : d0 ≤ d')
+    (hl : lookupOrigBases t d' b = some bs') (hgb : genericBases bs' = [g]) :
+    ∀ (bs : List BaseRef), bs.filterMap genericOf = [] →
+      ((bs.filterMap paramOf).filter fun q => usesMixin t d0 q.1) = [(b, args)] →
+      ((bs.filterMap paramOf).all fun q => usesMixin t d0 q.1 || foreign t d0 q.1) = true →
+      loopBases t d' bs = .found g args := by
   intro bs
   induction bs with
   | nil => intro _ hp; simp at hp
   | cons x r ih =>
-    intro hg hp
+    intro hg hsel hall
     cases x with
     | generic tvs => simp [genericOf] at hg
     | plain q =>
       simp only [loopBases]
       apply ih
       · simpa [genericOf, List.filterMap_cons] using hg
-      · simpa [paramOf, List.filterMap_cons] using hp
+      · simpa [paramOf, List.filterMap_cons] using hsel
+      · simpa [paramOf, List.filterMap_cons] using hall
     | param o a =>
-      simp only [paramOf, List.filterMap_cons, List.cons.injEq, Prod.mk.injEq] at hp
-      obtain ⟨⟨rfl, rfl⟩, _⟩ := hp
-      simp [loopBases, hl, getGenericBase, hgb, pickIdx, genericBaseIndex]
+      simp only [paramOf, List.filterMap_cons, List.all_cons, Bool.and_eq_true] at hall
+      simp only [paramOf, List.filterMap_cons, List.filter_cons] at hsel
+      by_cases hu : usesMixin t d0 o = true
+      · simp only [hu, ↓reduceIte, List.cons.injEq, Prod.mk.injEq] at hsel
+        obtain ⟨⟨rfl, rfl⟩, _⟩ := hsel
+        simp [loopBases, not_passedOver_mixin hu d' hd, hl, getGenericBase, hgb, pickIdx, genericBaseIndex]
+      · have hu' : usesMixin t d0 o = false := by simpa using hu
+        have hf : foreign t d0 o = true := by simpa [hu'] using hall.1
+        simp only [hu', Bool.false_eq_true, ↓reduceIte] at hsel
+        simp only [loopBases, passedOver_foreign hwf hf d', ↓reduceIte]
+        exact ih (by simpa [genericOf, List.filterMap_cons] using hg) hsel hall.2
+
+/-- **order independence**: the answer of the loop does not depend on where the subscripted bases that are foreign to GenericMixin
+    (and the plain mixins) stand — any permutation of such a list of bases is answered alike -/
+theorem loop_order_independent {t : Table} (hwf : WF t) {d0 b : Nat} {args g : List TArg} {bs' : List BaseRef} (d' : Nat) (hd : d0 ≤ d')
+    (hl : lookupOrigBases t d' b = some bs') (hgb : genericBases bs' = [g]) (bs₁ bs₂ : List BaseRef) (hperm : bs₁.Perm bs₂)
+    (hg : bs₁.filterMap genericOf = [])
+    (hsel : ((bs₁.filterMap paramOf).filter fun q => usesMixin t d0 q.1) = [(b, args)])
+    (hall : ((bs₁.filterMap paramOf).all fun q => usesMixin t d0 q.1 || foreign t d0 q.1) = true) :
+    loopBases t d' bs₂ = loopBases t d' bs₁ ∧ loopBases t d' bs₁ = .found g args := by
+  have h1 := loop_select hwf d' hd hl hgb bs₁ hg hsel hall
+  have hg2 : bs₂.filterMap genericOf = [] := by
+    have := (hperm.filterMap genericOf); rw [hg] at this; exact List.perm_nil.mp this.symm
+  have hp := hperm.filterMap paramOf
+  have hsel2 : ((bs₂.filterMap paramOf).filter fun q => usesMixin t d0 q.1) = [(b, args)] := by
+    have := hp.filter (fun q => usesMixin t d0 q.1); rw [hsel] at this
+    exact List.perm_singleton.mp this.symm
+  have hall2 : ((bs₂.filterMap paramOf).all fun q => usesMixin t d0 q.1 || foreign t d0 q.1) = true := by
+    rw [List.all_eq_true] at hall ⊢
+    intro q hq; exact hall q (hp.mem_iff.mpr hq)
+  exact ⟨(loop_select hwf d' hd hl hgb bs₂ hg2 hsel2 hall2).trans h1.symm, h1⟩
 
 /-- a class of kind `bound` finds bases without `Generic[…]`, and the loop over them stops at `B[args]` -/
 theorem kind_bound {t : Table} (hwf : WF t) : ∀ (d c : Nat) (m : List (TArg × TArg)), kindOf t d c = .bound m →
@@ -406,19 +574,24 @@ theorem kind_bound {t : Table} (hwf : WF t) : ∀ (d c : Nat) (m : List (TArg ×
     simp only [kindOf] at h
     split at h
     · split at h <;> simp at h
-    · rename_i b args hg hp
+    · rename_i p ps' hg hp
       split at h
-      · rename_i tvs hk
+      · rename_i b args hsel
         split at h
-        · injection h with h; subst h
-          rcases kind_direct hwf d b tvs hk with ⟨hnd, bs', hgb, hl⟩
-          refine ⟨basesOf t c, tvs, args, rfl, hnd, by simp [genericBases_eq, hg], ?_, ?_⟩
-          · intro d' _
-            apply lookup_own
-            have : (basesOf t c).any BaseRef.isAlias = true := any_alias_of_param (p := (b, args)) (by simp [hp])
-            simp [ownOrigBases, this]
-          · intro d' hd'
-            exact loop_single (hl d' (by omega)) hgb _ hg hp
+        · rename_i tvs hk
+          split at h
+          · rename_i hc
+            injection h with h; subst h
+            simp only [Bool.and_eq_true, decide_eq_true_eq] at hc
+            rcases kind_direct hwf d b tvs hk with ⟨hnd, bs', hgb, hl⟩
+            refine ⟨basesOf t c, tvs, args, rfl, hnd, by simp [genericBases_eq, hg], ?_, ?_⟩
+            · intro d' _
+              apply lookup_own
+              have : (basesOf t c).any BaseRef.isAlias = true := any_alias_of_param (p := p) (by simp [hp])
+              simp [ownOrigBases, this]
+            · intro d' hd'
+              exact loop_select (d0 := d) hwf d' (by omega) (hl d' (by omega)) hgb _ hg (by rw [hp]; exact hsel) (by rw [hp]; exact hc.1.1.2)
+          · simp at h
         · simp at h
       · simp at h
     · split at h
@@ -607,17 +780,68 @@ theorem direct_with_parametrised_mixins {t : Table} (hwf : WF t) (d c : Nat) (tv
   refine ⟨type_vars_exact hwf (d + 1) c (some args) _ ?_, unparametrised_asserts hwf (d + 1) c tvs hk⟩
   simp [expectedOutcome, hk, hlen]
 
-/-- … and a subclass that binds all parameters of such a class — `class IntBox(Box[int])`, with plain non-generic mixins
-    around it — reports exactly `{Ti: Xi}` of that binding, instantiated as `IntBox()` -/
-theorem binding_subclass_of_direct_with_parametrised_mixins {t : Table} (hwf : WF t) (d c b : Nat) (tvs : List Nat)
+/-- **a subclass that binds all parameters of its generic base, with further subscripted bases at any position** — stated on the
+    declarations themselves: the class lists no `Generic[…]`; exactly one of its subscripted bases, `B[X1..Xn]`, is a GenericMixin
+    class (`B` declares `Generic[T1..Tn]`, or is a plain subclass of such a class), with as many arguments as `B` has parameters, all
+    of them types; every other subscripted base — `Labelled[str]`, `Sequence[int]`, `list[int]`, any number of them, BEFORE or AFTER
+    `B[…]` — has nothing to do with GenericMixin; the plain bases are non-generic.  Then `type_vars` is exactly `{Ti: Xi}` of `B[…]`,
+    however the instance was created.  The hypotheses speak about the bases through `filterMap` / `filter` / `all` only: they do not
+    see the order of the bases, so the position of the foreign subscripted bases does not matter (`class Odd(Labelled[str], Box[int])`
+    and `class Even(Box[int], Labelled[str])` alike). -/
+theorem binding_subclass_foreign_bases_any_position {t : Table} (hwf : WF t) (d c b : Nat) (tvs : List Nat)
     (args : List TArg) (orig : Option (List TArg))
     (hb : kindOf t d b = .direct tvs)
-    (hg : (basesOf t c).filterMap genericOf = []) (hp : (basesOf t c).filterMap paramOf = [(b, args)])
+    (hg : (basesOf t c).filterMap genericOf = [])
+    (hsel : ((basesOf t c).filterMap paramOf).filter (fun q => usesMixin t d q.1) = [(b, args)])
+    (hfor : ((basesOf t c).filterMap paramOf).all (fun q => usesMixin t d q.1 || foreign t d q.1) = true)
     (hpl : ((basesOf t c).filterMap plainOf).all (nonGeneric t d) = true)
     (hlen : args.length = tvs.length) (hty : args.all TArg.isTy = true) :
     getTypes t (d + 1) c orig = .ok (pairUp tvs args) := by
   apply type_vars_exact hwf
-  simp [expectedOutcome, kindOf, hg, hp, hb, hpl, hlen, hty]
+  cases hps : (basesOf t c).filterMap paramOf with
+  | nil => rw [hps] at hsel; simp at hsel
+  | cons p ps' =>
+    rw [hps] at hsel hfor
+    simp only [expectedOutcome, kindOf, hg, hps, hsel, hb, hpl, hfor, hlen, hty, Bool.and_self, decide_true, ↓reduceIte]
+
+/-- the same with `B[…]` as the only subscripted base: `class IntBox(Box[int])`, plain non-generic mixins around it -/
+theorem binding_subclass_of_direct_with_parametrised_mixins {t : Table} (hwf : WF t) (d c b : Nat) (tvs : List Nat)
+    (args : List TArg) (orig : Option (List TArg))
+    (hb : kindOf t d b = .direct tvs) (hu : usesMixin t d b = true)
+    (hg : (basesOf t c).filterMap genericOf = []) (hp : (basesOf t c).filterMap paramOf = [(b, args)])
+    (hpl : ((basesOf t c).filterMap plainOf).all (nonGeneric t d) = true)
+    (hlen : args.length = tvs.length) (hty : args.all TArg.isTy = true) :
+    getTypes t (d + 1) c orig = .ok (pairUp tvs args) :=
+  binding_subclass_foreign_bases_any_position hwf d c b tvs args orig hb hg (by simp [hp, hu]) (by simp [hp, hu]) hpl hlen hty
+
+/-- **order independence, on whole class tables**: two tables that differ in nothing but the ORDER in which one binding subclass
+    lists its bases (same classes everywhere else, the bases of that class a permutation) give the same `type_vars` — whenever the
+    interpreter accepts both (`WF`) and the declarations of one of them are in the shape of the theorem above -/
+theorem type_vars_order_independent {t₁ t₂ : Table} (hwf₁ : WF t₁) (hwf₂ : WF t₂) (d c b : Nat) (tvs : List Nat)
+    (args : List TArg) (orig : Option (List TArg))
+    (hperm : (basesOf t₁ c).Perm (basesOf t₂ c))
+    (hb₁ : kindOf t₁ d b = .direct tvs) (hb₂ : kindOf t₂ d b = .direct tvs)
+    (hu : ∀ q, usesMixin t₂ d q = usesMixin t₁ d q) (hf : ∀ q, foreign t₂ d q = foreign t₁ d q)
+    (hn : ∀ q, nonGeneric t₂ d q = nonGeneric t₁ d q)
+    (hg : (basesOf t₁ c).filterMap genericOf = [])
+    (hsel : ((basesOf t₁ c).filterMap paramOf).filter (fun q => usesMixin t₁ d q.1) = [(b, args)])
+    (hfor : ((basesOf t₁ c).filterMap paramOf).all (fun q => usesMixin t₁ d q.1 || foreign t₁ d q.1) = true)
+    (hpl : ((basesOf t₁ c).filterMap plainOf).all (nonGeneric t₁ d) = true)
+    (hlen : args.length = tvs.length) (hty : args.all TArg.isTy = true) :
+    getTypes t₂ (d + 1) c orig = getTypes t₁ (d + 1) c orig := by
+  rw [binding_subclass_foreign_bases_any_position hwf₁ d c b tvs args orig hb₁ hg hsel hfor hpl hlen hty]
+  have hp := hperm.filterMap paramOf
+  apply binding_subclass_foreign_bases_any_position hwf₂ d c b tvs args orig hb₂
+  · have := hperm.filterMap genericOf; rw [hg] at this; exact List.perm_nil.mp this.symm
+  · have := hp.filter (fun q => usesMixin t₁ d q.1); rw [hsel] at this
+    simpa [hu] using List.perm_singleton.mp this.symm
+  · rw [List.all_eq_true] at hfor ⊢
+    intro q hq; simpa [hu, hf] using hfor q (hp.mem_iff.mpr hq)
+  · have hq := hperm.filterMap plainOf
+    rw [List.all_eq_true] at hpl ⊢
+    intro q hq'; simpa [hn] using hpl q (hq.mem_iff.mpr hq')
+  · exact hlen
+  · exact hty
 
 /-! ## create_decorator -/
 
@@ -1362,6 +1586,35 @@ theorem mixins_source_shape :
     (nsOf libTable 1).map (·.1) = [⟨0, "type_var"⟩, ⟨0, "type_vars"⟩, ⟨1, "get_types"⟩, ⟨0, "class_name"⟩] ∧
     (nsOf libTable 3).map (·.1) = [⟨0, "get_decorated_functions"⟩] := by decide
 
+/-- the loop passes over subscripted bases whose origin is no GenericMixin class (commit 2c5b09b; `none` without the test — then
+    `loop_select` / `kind_bound` fail), and the helpers keep nothing between two queries: no decorator (`functools.lru_cache`, …)
+    on `_get_types` and on `get_generic_base` — which receives the INSTANCE, so a cache there would be keyed by `__hash__` / `__eq__`
+    of user objects — and only `property` on `type_var` / `type_vars` (module-level state is refused by the translator) -/
+theorem helpers_keep_nothing :
+    loopOriginMustDeriveFrom = some "GenericMixin" ∧
+    getTypesDecorators = [] ∧ getGenericBaseDecorators = [] ∧
+    typeVarDecorators = ["property"] ∧ typeVarsDecorators = ["property"] := by decide
+
+/-- **every query is answered on its own**: in any history of queries on any instances — of the same class or of different classes,
+    hashable or not, comparing equal or not (the model has no place where that could enter) — the answer to a query is the answer
+    it would get as the only query -/
+theorem query_independent_of_history (t : Table) (d : Nat) (pre post : List (Nat × Option (List TArg)))
+    (q : Nat × Option (List TArg)) :
+    (runQueries t d (pre ++ q :: post))[pre.length]? = some (getTypes t d q.1 q.2) := by
+  simp [runQueries]
+
+/-- … so every query of a history that lies in a supported shape gets exactly `{Ti: Xi}`, and every query for which the property
+    demands a refusal gets an AssertionError, whatever was asked before -/
+theorem history_exact {t : Table} (hwf : WF t) (d : Nat) (pre post : List (Nat × Option (List TArg)))
+    (q : Nat × Option (List TArg)) :
+    (∀ m, expectedOutcome t d q.1 q.2 = .ok m → (runQueries t d (pre ++ q :: post))[pre.length]? = some (.ok m)) ∧
+    (expectedOutcome t d q.1 q.2 = .mustAssert →
+      ∃ s, (runQueries t d (pre ++ q :: post))[pre.length]? = some (.raised s "AssertionError")) := by
+  rw [query_independent_of_history]
+  refine ⟨fun m h => by rw [type_vars_exact hwf d q.1 q.2 m h], fun h => ?_⟩
+  obtain ⟨s, hs⟩ := must_assert hwf d q.1 q.2 h
+  exact ⟨s, by rw [hs]⟩
+
 /-- the table of a program with one user class `class My(WithDecoratedMethods[X])` -/
 def wdmUser (x : Nat) (ns : List (Name × MemberDef)) : Table := libTable ++ [⟨[.param 3 [.ty x]], ns⟩]
 
@@ -1385,7 +1638,8 @@ theorem wdm_subclass_type_var (x : Nat) (ns : List (Name × MemberDef)) (d : Nat
   have g : List.filterMap genericOf [BaseRef.param 3 [TArg.ty x]] = [] := rfl
   have p : List.filterMap paramOf [BaseRef.param 3 [TArg.ty x]] = [(3, [.ty x])] := rfl
   have q : List.filterMap plainOf [BaseRef.param 3 [TArg.ty x]] = [] := rfl
-  simp only [g, p, q, k3]
+  have u3 : usesMixin (wdmUser x ns) (d + 2) 3 = true := by rw [usesMixin, h3]; rfl
+  simp only [g, p, q, List.filter_cons, u3, ↓reduceIte, List.filter_nil, k3, List.all_cons, List.all_nil, Bool.true_or]
   rfl
 
 theorem wdmUser_wf (x : Nat) (ns : List (Name × MemberDef)) : WF (wdmUser x ns) := by
@@ -1424,6 +1678,9 @@ example : expectedOutcome exT 10 5 none = .mustAssert := by decide
 example : getTypes exT 10 8 none = .ok [(.tv 1, .ty 7), (.tv 2, .ty 8)] :=
   type_vars_exact (WF_of_wfB (by decide)) 10 8 none _ (by decide)
 example : lin exT 10 8 = [8, 7, 6, 5, 4, 1, 0] := by decide
+example : runQueries exT 10 [(5, some [.ty 3, .ty 4]), (7, none), (5, none), (8, none)] =
+    [.ok [(.tv 1, .ty 3), (.tv 2, .ty 4)], .ok [(.tv 1, .ty 7), (.tv 2, .ty 8)], .raised .unparam "AssertionError",
+     .ok [(.tv 1, .ty 7), (.tv 2, .ty 8)]] := by decide
 
 /-- outside the supported shapes (reported only): a partially binding subclass `class G(A[T1, X7])` instantiated as
     `G[X3]()` answers `{T1: T1, T2: X7}` — the argument `X3` is lost -/
@@ -1459,16 +1716,49 @@ example : getTypes exBox 12 7 (some [.ty 0, .ty 6]) = .ok [(.tv 1, .ty 0), (.tv 
   direct_with_parametrised_mixins (WF_of_wfB (by decide)) 11 7 [1, 2] [.ty 0, .ty 6] (by decide) (by decide) (by decide) (by decide) rfl
 example : getTypes exBox 12 8 none = .ok [(.tv 1, .ty 0)] :=
   binding_subclass_of_direct_with_parametrised_mixins (WF_of_wfB (by decide)) 11 8 6 [1] [.ty 0] none (by decide) (by decide)
-    (by decide) (by decide) rfl (by decide)
+    (by decide) (by decide) (by decide) rfl (by decide)
 example : lin exBox 12 6 = [6, 4, 0, 1] ∧ lin exBox 12 7 = [7, 1, 5, 4, 0] := by decide
 
-/-- outside the claimed shapes (reported only): a binding subclass with a SECOND subscripted base.  "Their generic base" is not
-    defined for it and the specification claims nothing; the code takes the first subscripted base whose origin is generic —
-    `class Odd(Labelled[X1], Box[X0])` answers with the type argument of the mixin, `{T4: X1}`, while
-    `class Odd2(Box[X0], Labelled[X1])` answers `{T1: X0}` -/
-theorem binding_subclass_second_subscripted_base_first_wins :
-    expectedOutcome exBox 12 10 none = .unsupported ∧ getTypes exBox 12 10 none = .ok [(.tv 4, .ty 1)] ∧
-    expectedOutcome exBox 12 11 none = .unsupported ∧ getTypes exBox 12 11 none = .ok [(.tv 1, .ty 0)] := by decide
+-- a binding subclass with further subscripted bases that are foreign to GenericMixin: `class Odd(Labelled[X1], Box[X0])` and
+-- `class Odd2(Box[X0], Labelled[X1])` answer alike, `{T1: X0}` — the hypotheses of `binding_subclass_foreign_bases_any_position`
+-- are met by both (before commit 2c5b09b `Odd` answered with the type argument of the mixin, `{T4: X1}`)
+example : expectedOutcome exBox 12 10 none = .ok [(.tv 1, .ty 0)] ∧ expectedOutcome exBox 12 11 none = .ok [(.tv 1, .ty 0)] := by decide
+example : getTypes exBox 12 10 none = .ok [(.tv 1, .ty 0)] :=
+  binding_subclass_foreign_bases_any_position (WF_of_wfB (by decide)) 11 10 6 [1] [.ty 0] none (by decide) (by decide) (by decide)
+    (by decide) (by decide) rfl (by decide)
+example : getTypes exBox 12 11 none = .ok [(.tv 1, .ty 0)] :=
+  binding_subclass_foreign_bases_any_position (WF_of_wfB (by decide)) 11 11 6 [1] [.ty 0] none (by decide) (by decide) (by decide)
+    (by decide) (by decide) rfl (by decide)
+example : (basesOf exBox 10).Perm (basesOf exBox 11) := by decide
+example : loopBases exBox 12 (basesOf exBox 10) = loopBases exBox 12 (basesOf exBox 11) := by decide
+
+/-- `class Seq` stands for a subscriptable class without `__orig_bases__` (`list`, `collections.abc.Sequence`):
+    `class SeqBox(Seq[X0], Box[X0])`, `class BoxSeq(Box[X0], Seq[X0])`, `class Three(Labelled[X1], Box[X0], Seq[X3])`;
+    outside the claimed shapes: `class IntL(Labelled[X0], GenericMixin)` (binds a generic class that is no GenericMixin class) and
+    `class Two(Box[X0], Box2[X1])` (two subscripted GenericMixin bases) -/
+def exSeq : Table := libTable ++ [
+  ⟨[.generic [4]], []⟩,                                                       -- 4: Labelled
+  ⟨[], []⟩,                                                                   -- 5: Seq
+  ⟨[.generic [1], .plain 1], []⟩,                                             -- 6: Box
+  ⟨[.param 5 [.ty 0], .param 6 [.ty 0]], []⟩,                                 -- 7: SeqBox
+  ⟨[.param 6 [.ty 0], .param 5 [.ty 0]], []⟩,                                 -- 8: BoxSeq
+  ⟨[.param 4 [.ty 1], .param 6 [.ty 0], .param 5 [.ty 3]], []⟩,               -- 9: Three
+  ⟨[.param 4 [.ty 0], .plain 1], []⟩,                                         -- 10: IntL
+  ⟨[.plain 1, .generic [2]], []⟩,                                             -- 11: Box2
+  ⟨[.param 6 [.ty 0], .param 11 [.ty 1]], []⟩ ]                               -- 12: Two
+
+example : wfB exSeq = true := by decide
+example : expectedOutcome exSeq 13 7 none = .ok [(.tv 1, .ty 0)] ∧ expectedOutcome exSeq 13 8 none = .ok [(.tv 1, .ty 0)] ∧
+    expectedOutcome exSeq 13 9 none = .ok [(.tv 1, .ty 0)] := by decide
+example : getTypes exSeq 13 7 none = .ok [(.tv 1, .ty 0)] ∧ getTypes exSeq 13 9 none = .ok [(.tv 1, .ty 0)] := by decide
+
+/-- outside the claimed shapes (reported only).  A class that binds the parameter of a generic class which is NOT a GenericMixin
+    class and adds the mixin itself — `class IntL(Labelled[X0], GenericMixin)` — finds no base to take the arguments from
+    (AttributeError on `None`; before commit 2c5b09b it answered `{T4: X0}`); with two subscripted GenericMixin bases —
+    `class Two(Box[X0], Box2[X1])` — the first one is reported -/
+theorem outside_the_claimed_binding_shapes :
+    expectedOutcome exSeq 13 10 none = .unsupported ∧ getTypes exSeq 13 10 none = .raised .noneArgs "AttributeError" ∧
+    expectedOutcome exSeq 13 12 none = .unsupported ∧ getTypes exSeq 13 12 none = .ok [(.tv 1, .ty 0)] := by decide
 
 def exD : Table := libTable ++ [
   ⟨[.param 3 [.ty 50]],                                   -- 4: class Base(WithDecoratedMethods[D])
